@@ -433,7 +433,7 @@ def corpus_db(tier):
     gmax = 2 if tier == 'quick' else 3
     for n in range(1, gmax + 1):
         for gs in itertools.product(range(len(c14.GOALS)), repeat=n):
-            if not any(g in (2, 3, 4, 5, 6) for g in gs):
+            if not any(g in (2, 3, 4, 5, 6, 10) for g in gs):
                 continue
             yield idx, gs
             idx += 1
